@@ -161,6 +161,29 @@ def body_node_not_converted_case():
     return B.Case({"x": x, "c": c}, {"y": op19.identity(r)}, False, {"names": "corner:body-node-not-converted/split-17-in-a-branch-under-opset-19"})
 
 
+def function_body_conversion_cases():
+    """A function whose BODY holds an operator that must be converted to the model's final opset and whose old form the basic checker
+    still accepts (Split-17 without num_outputs under opset 19; ReduceMax-17 with an axes attribute is rejected by the basic checker and
+    is the loud twin), through to_function, called once and twice.  Judged by the direct oracle."""
+    import numpy as np
+    import spox.opset.ai.onnx.v17 as op17
+    import spox.opset.ai.onnx.v19 as op19
+    from spox._function import to_function
+
+    out = []
+    for tag, body in (("split-17", lambda v: [op17.add(*op17.split(v, outputs_count=2))]),
+                      ("reduce_max-17", lambda v: [op17.reduce_max(v, axes=[0], keepdims=1)])):
+        for calls in (1, 2):
+            f = to_function(f"Body_{tag.replace('-', '_')}_{calls}", "verif.c02conv")(body)
+            x = B.argument(B.Tensor(np.float32, (4,)))
+            (r,) = list(f(x))
+            outs = {"y": op19.identity(r)}
+            if calls == 2:
+                outs["z"] = list(f(op19.identity(x)))[0]
+            out.append(B.Case({"x": x}, outs, False, {"names": f"corner:function-body-needs-conversion/{tag}/{calls}-calls"}))
+    return out
+
+
 def sibling_duplicate_case():
     """Corner: an inlined model whose two If branches each own a value of the same name (legal ONNX)."""
     import numpy as np
@@ -213,6 +236,7 @@ def run(run: Run) -> int:
         cases.append(c)
     cases.append(function_in_branch_and_main_case())
     mixed = mixed_cases(run, n // 4) + converted_twice_cases() + inlined_older_model_cases() + [body_node_not_converted_case()]
+    mixed += function_body_conversion_cases()
     from harness import c14
     for dc in c14.deep_chain_cases():       # functions calling functions calling functions (depth 3-5): every level needs its definition
         dc.meta["names"] = "corner:deep-function-chain/" + dc.meta["deep_chain"]
